@@ -9,7 +9,7 @@
 //! * `pure` (sampled): pure records, 40-point density grid from 0.2 rho_v to 1.1 rho_l.
 use super::c05::{
     all_dilute, build_point, envelope, err_name, fresh, gen_mixpoint, gen_opt, ln_fugacity, p_of, pool_of, pressure_red, rec_name,
-    track, vle_like, worst_json, Built, MixKind, MixPoint, Pe2, SolverOpt, St, G2001_HC, LATTICE_T, LATTICE_X,
+    build_nearcrit, nearcrit_items, track, vle_like, worst_json, Built, MixKind, MixPoint, NearCritCase, Pe2, SolverOpt, St, G2001_HC, LATTICE_T, LATTICE_X,
 };
 use crate::engine::{Ctx, Gen, Obs, PanicPolicy, PartCfg};
 use crate::model::*;
@@ -353,6 +353,9 @@ pub struct MixCase {
     pub opts: SolverOpt,
     /// root of the feed state: 0 stable, 1 liquid, 2 vapor
     pub init: u8,
+    /// region 3: max_iter of the flash whose phases are analysed (default tolerance)
+    #[serde(default)]
+    pub flash_max_iter: Option<usize>,
 }
 
 pub fn decode_mix(g: &mut Gen) -> MixCase {
@@ -374,6 +377,7 @@ pub fn decode_mix(g: &mut Gen) -> MixCase {
         u,
         opts: gen_opt(g, 0.5, (50, 400), (1e-8, 1e-5)),
         init: g.index(3) as u8,
+        flash_max_iter: if g.bool(0.5) { Some(g.int(1, 5) as usize) } else { None },
     }
 }
 
@@ -472,8 +476,42 @@ pub fn check_mix(case: &MixCase, obs: &mut Obs) {
                 obs.class("inside within 10 % of the boundary");
                 obs.nontrivial();
             }
-            expect_unstable(obs, "inside", &feed, &case.opts, strict);
-            expect_split(obs, "inside", &feed);
+            // signature of the open finding C07/stability-analysis-misses-liquid-of-dilute-long-chain:
+            // binary with segment-number ratio >= 3, the long chain at x <= 0.1, feed on its vapour
+            // root, and the incipient liquid (composition of the dew-point liquid) really lowers
+            // the Gibbs energy (tpd < -1e-3 recomputed from fugacity coefficients)
+            let spec = &case.mix.spec;
+            let ms: Vec<f64> = spec.pure.iter().map(|r| r["model_record"]["m"].as_f64().unwrap_or(1.0)).collect();
+            let signature = spec.n() == 2 && !strict && {
+                let heavy = if ms[0] >= ms[1] { 0 } else { 1 };
+                let on_vapour = feed.density.to_reduced() < 0.5 * bub.liquid().density.to_reduced();
+                let w = dew.liquid().molefracs.clone();
+                let tpd = State::new_npt(&b.eos, b.t, Pressure::from_reduced(p), &(w.clone() * MOL), DensityInitialization::Liquid)
+                    .ok()
+                    .map(|tr| {
+                        let (lf, lt) = (feed.ln_phi(), tr.ln_phi());
+                        (0..2).map(|i| w[i] * (w[i].ln() + lt[i] - feed.molefracs[i].ln() - lf[i])).sum::<f64>()
+                    });
+                ms[heavy] / ms[1 - heavy] >= 3.0 && case.mix.x[heavy] <= 0.1 && on_vapour && tpd.map_or(false, |t| t < -1e-3)
+            };
+            let mut o2 = Obs::default();
+            expect_unstable(&mut o2, "inside", &feed, &case.opts, strict);
+            expect_split(&mut o2, "inside", &feed);
+            obs.comparisons += o2.comparisons;
+            for c in o2.classes {
+                obs.class(c);
+            }
+            obs.known.extend(o2.known);
+            obs.inconclusive.extend(o2.inconclusive);
+            obs.discards.extend(o2.discards);
+            for f in o2.fails {
+                if signature && (f.contains("reported stable") || f.contains("returned NoPhaseSplit")) {
+                    obs.class("signature:C07/stability-analysis-misses-liquid-of-dilute-long-chain");
+                    obs.known_or_fail("C07/stability-analysis-misses-liquid-of-dilute-long-chain", f);
+                } else {
+                    obs.fail(f);
+                }
+            }
         }
         r @ (1 | 2) => {
             let p = if r == 1 { pd * (1.0 - case.u) } else { pb * (1.0 + case.u) };
@@ -497,7 +535,15 @@ pub fn check_mix(case: &MixCase, obs: &mut Obs) {
                 return;
             }
             let p = 1.02 * pd + case.u * (0.98 * pb - 1.02 * pd);
-            match PhaseEquilibrium::tp_flash(&b.eos, b.t, Pressure::from_reduced(p), &(b.x.clone() * MOL), None, SolverOptions::default(), None) {
+            // a flash that returns Ok - also with a small max_iter - delivers converged phases
+            let fo = SolverOpt {
+                max_iter: case.flash_max_iter,
+                tol: None,
+            };
+            if let Some(m) = case.flash_max_iter {
+                obs.class(format!("flash phases, flash max_iter {m}"));
+            }
+            match PhaseEquilibrium::tp_flash(&b.eos, b.t, Pressure::from_reduced(p), &(b.x.clone() * MOL), None, fo.to(), None) {
                 Ok(pe) => {
                     obs.nontrivial();
                     expect_stable(obs, "flash vapor", pe.vapor(), &case.opts, strict, Some(pe.liquid()));
@@ -582,6 +628,32 @@ pub fn check_lattice(case: &LatticeCase, obs: &mut Obs) {
             }
             Err(e) => obs.discard(format!("feed state: {}", err_name(&e))),
         }
+    }
+}
+
+// ---------------------------------------------------------------------------------------
+// part `nearcrit`: phases of flashes 2-5 % below the critical temperature of the feed
+// ---------------------------------------------------------------------------------------
+pub fn check_nearcrit(case: &NearCritCase, obs: &mut Obs) {
+    let Some((b, pd, pb)) = build_nearcrit(case, obs) else { return };
+    let p = pd + case.theta * (pb - pd);
+    let fo = SolverOpt {
+        max_iter: case.max_iter,
+        tol: None,
+    };
+    let what = match case.max_iter {
+        Some(m) => format!("flash max_iter {m}"),
+        None => "flash default".to_string(),
+    };
+    match PhaseEquilibrium::tp_flash(&b.eos, b.t, Pressure::from_reduced(p), &(b.x.clone() * MOL), None, fo.to(), None) {
+        Ok(pe) => {
+            obs.class(format!("{what}: Ok"));
+            obs.nontrivial();
+            let d = SolverOpt::default();
+            expect_stable(obs, "near-critical flash vapor", pe.vapor(), &d, false, Some(pe.liquid()));
+            expect_stable(obs, "near-critical flash liquid", pe.liquid(), &d, false, Some(pe.vapor()));
+        }
+        Err(e) => obs.class(format!("{what}: Err {}", err_name(&e))),
     }
 }
 
@@ -727,20 +799,23 @@ const PART_PURE: PartCfg = PartCfg {
 };
 
 pub fn run(ctx: &Ctx) {
-    ctx.set_rule("lattice (seed independent): hydrocarbon pairs of gross2001 with T_c ratio < 1.5 (quick: every 8th pair, thorough: all) x T/T_c,low in {0.65..0.9} x x_1 in {0.05..0.95}: feeds at p_dew 0.98 and p_bub 1.02 (stable), feeds 1e-4 outside either boundary (soundness of trial states only), one component pure in the binary model (the other with exactly zero moles) 2 % above / below its vapor pressure (stable), the four bubble/dew phases (stable), feeds at 1.02 p_dew, mid, 0.98 p_bub (unstable + flash splits; envelopes narrower than 5 % excluded and counted). mix (sampled): mixtures/T/x of C05 (PC-SAFT hydrocarbons, other PC-SAFT records, gc-PC-SAFT, SAFT-VR Mie; 2-3 components, T_c ratio < 1.8, T/T_c,low in [0.6,0.95], x_i >= 0.02) x region {inside [1.02 p_dew, 0.98 p_bub], below dew and above bubble with margin log-uniform in [0.02,0.5], phases of a converged flash, phases of the bubble and dew point, feeds within 2 % of the boundary (margin log-uniform 1e-6..2e-2, either side; soundness of the trial states only), feeds with exactly zero moles of one component (below dew / above bubble / inside the envelope of the remaining components computed with the sub-model)} x stability options (max_iter 50-400, tol 1e-8..1e-5, p 0.5) x feed root (stable/liquid/vapor). pure (sampled): pure records of the same pools, T/T_c in [0.5,0.98], 40-point geometric or linear density grid from 0.2 rho_v to 1.1 rho_l. Non-trivial: a returned trial state with recomputed tpd in [-1,-1e-6], or a verdict within 10 % of the phase boundary, or an equilibrium phase. Distinct by hash of the canonical case JSON.");
+    ctx.set_rule("lattice (seed independent): hydrocarbon pairs of gross2001 with T_c ratio < 1.5 (quick: every 8th pair, thorough: all) x T/T_c,low in {0.65..0.9} x x_1 in {0.05..0.95}: feeds at p_dew 0.98 and p_bub 1.02 (stable), feeds 1e-4 outside either boundary (soundness of trial states only), one component pure in the binary model (the other with exactly zero moles) 2 % above / below its vapor pressure (stable), the four bubble/dew phases (stable), feeds at 1.02 p_dew, mid, 0.98 p_bub (unstable + flash splits; envelopes narrower than 5 % excluded and counted). nearcrit (seed independent): the near-critical feeds of C05 (66 light hydrocarbon pairs x 4 compositions x T/T_c(x) in {0.95..0.98}) flashed at the middle of the envelope with max_iter in {default,1,2,3}: the phases of every flash that returns Ok are stable. mix (sampled): mixtures/T/x of C05 (PC-SAFT hydrocarbons, other PC-SAFT records, gc-PC-SAFT, SAFT-VR Mie; 2-3 components, T_c ratio < 1.8, T/T_c,low in [0.6,0.95], x_i >= 0.02) x region {inside [1.02 p_dew, 0.98 p_bub], below dew and above bubble with margin log-uniform in [0.02,0.5], phases of a flash that returned Ok (flash max_iter default or 1-5), phases of the bubble and dew point, feeds within 2 % of the boundary (margin log-uniform 1e-6..2e-2, either side; soundness of the trial states only), feeds with exactly zero moles of one component (below dew / above bubble / inside the envelope of the remaining components computed with the sub-model)} x stability options (max_iter 50-400, tol 1e-8..1e-5, p 0.5) x feed root (stable/liquid/vapor). pure (sampled): pure records of the same pools, T/T_c in [0.5,0.98], 40-point geometric or linear density grid from 0.2 rho_v to 1.1 rho_l. Non-trivial: a returned trial state with recomputed tpd in [-1,-1e-6], or a verdict within 10 % of the phase boundary, or an equilibrium phase. Distinct by hash of the canonical case JSON.");
     ctx.assume("tangent-plane distance recomputed as sum_i w_i (ln f_i(trial) - ln f_i(feed)) with ln f_i = ln(x_i phi_i p) from ln_phi, molefracs and pressure of fresh State::new_nvt copies (C01/C02 validate ln_phi); strictly negative is demanded, no tolerance");
     ctx.assume("zero-mole feeds: the absent component has ln z_i = -inf, a trial state containing it has tpd = +inf (reported as not finite and negative); phase boundary of the remaining components from eos.subset (C09 validates subset)");
     ctx.assume("trial state temperature bitwise equal to the feed's, pressure to 1e-7 relative + 1e-10 reduced (100 x the density-iteration tolerance)");
     ctx.assume("phase boundary from default bubble_point / dew_point (C05 checks them); cases whose envelope is not a vapor-liquid pair are discarded");
     ctx.assume("a sound trial state (recomputed tpd < 0) proves an 'unstable' verdict right; a phase of a converged result reported unstable is therefore a violation iff a returned trial state is its own coexisting phase (density and composition within 1e-3), otherwise the model has a further phase split there (class 'another phase split', sampled k_ij up to +-0.08); on the lattice (gross2001 hydrocarbon pairs, k_ij = 0) and for pure fluids any 'unstable' verdict for an expected-stable state is reported");
     ctx.assume("stability_analysis returning Err counts as a violation only with default options on the lattice and for pure fluids at p > 0; elsewhere it is counted as inconclusive (pure states with p <= 0 have no fugacity coefficient: the analysis rejects them with InvalidState)");
-    let parts = std::env::var("C07_PARTS").unwrap_or_else(|_| "lattice,mix,pure".into());
+    let parts = std::env::var("C07_PARTS").unwrap_or_else(|_| "lattice,nearcrit,mix,pure".into());
     let on = |p: &str| parts.split(',').any(|q| q == p);
     let stride = std::env::var("C07_STRIDE").ok().and_then(|s| s.parse().ok()).unwrap_or(ctx.pick(8, 1));
     if on("lattice") {
         let items = lattice_items(stride);
         ctx.extra("lattice_pairs", json!(items.len() / (LATTICE_T.len() * LATTICE_X.len())));
         ctx.run_lattice("lattice", items, PanicPolicy::Count, stride == 1, &check_lattice);
+    }
+    if on("nearcrit") {
+        ctx.run_lattice("nearcrit", nearcrit_items(1), PanicPolicy::Count, false, &check_nearcrit);
     }
     if on("mix") {
         ctx.run_sampled(&super::c05::scaled(&PART_MIX), &decode_mix, &check_mix);
@@ -756,6 +831,7 @@ pub fn replay(ctx: &Ctx, part: &str, case: &Value) -> bool {
     match part {
         "lattice" => ctx.replay_case::<LatticeCase>(case, &check_lattice),
         "mix" => ctx.replay_case::<MixCase>(case, &check_mix),
+        "nearcrit" => ctx.replay_case::<NearCritCase>(case, &check_nearcrit),
         "pure" => ctx.replay_case::<PureCase>(case, &check_pure),
         other => {
             eprintln!("unknown part {other}");
